@@ -72,7 +72,7 @@ class World:
         self.diverged = False
         self.transitions = 0
         self.state_digests = set()
-        self.mask_names = {'k'} if cfg == 'K1' else set()
+        self.mask_names = set(os.environ.get('FBMC_MASK', '').split()) if cfg == 'K1' else set()
         self.last_commit = None
 
     # -- lifecycle ------------------------------------------------------------
@@ -656,7 +656,7 @@ def run_spec(world, spec, upto=None):
     world.cfg = spec.get('cfg', 'K0')
     world.cache_rel = CFG[world.cfg]
     world.cache = world.sb.p(world.cache_rel)
-    world.mask_names = {'k'} if world.cfg == 'K1' else set()
+    world.mask_names = set(os.environ.get('FBMC_MASK', '').split()) if world.cfg == 'K1' else set()
     world.start()
     out = []
     for st in spec['steps'][:upto]:
